@@ -8,8 +8,16 @@ of the symbols and reports the first disagreement as an exact counterexample.
 import itertools
 
 from .absint import Interp
+from .loader import AnalysisError
 from .termeval import ev, path_matches, CannotEval, Raised
 from .values import K, T, Obj, TupleV, ListV, DictV, SetV, show
+
+
+class Outcomes(list):
+    """The extracted paths plus the recipe that produced them, so that a
+    comparison can fall back to following single inputs (guided mode) where
+    the symbolic table is inexact or cannot be evaluated."""
+    recipe = None
 
 
 def extract(world, thunk, types=None, capture=None, depth=5, setup=None,
@@ -19,7 +27,55 @@ def extract(world, thunk, types=None, capture=None, depth=5, setup=None,
         interp.types.update(types)
     if setup:
         setup(interp)
-    return interp.explore(thunk, capture=capture, max_paths=max_paths), interp
+    try:
+        outs = Outcomes(interp.explore(thunk, capture=capture,
+                                       max_paths=max_paths))
+    except AnalysisError as e:
+        if 'path bound' not in str(e) or capture is not None:
+            raise
+        # too many symbolic paths: leave the table empty and inexact; the
+        # comparison follows single inputs instead
+        outs = Outcomes()
+        outs.overflow = str(e)
+    outs.recipe = (world, thunk, types, setup, depth)
+    return outs, interp
+
+
+def guided_outcome(recipe, val, hooks=None):
+    """Follow the single path the valuation *val* takes (branches chosen by
+    evaluating their condition on it) and evaluate the outcome."""
+    world, thunk, types, setup, depth = recipe
+    interp = Interp(world, inline_depth=depth + 1)
+    if types:
+        interp.types.update(types)
+    memo = {}
+
+    def guide(t):
+        r = memo.get(t, memo)
+        if r is memo:
+            try:
+                r = ev(t, val, hooks)
+            except Raised as e:
+                memo[t] = e
+                raise
+            memo[t] = r
+        elif isinstance(r, Raised):
+            raise r
+        return r
+    interp.guide = guide
+    if setup:
+        setup(interp)
+    try:
+        outs = interp.explore(thunk, max_paths=64)
+    except AnalysisError as e:
+        raise CannotEval('guided run: %s' % e)
+    if len(outs) != 1 or not outs[0].exact:
+        raise CannotEval('guided run: %d paths %s' % (
+            len(outs), [o.notes for o in outs][:2]))
+    return outcome_value(outs[0], val, hooks)
+
+
+GUIDED_LIMIT = 4000
 
 
 def inexact_notes(outcomes, allow=()):
@@ -80,10 +136,21 @@ def grid_compare(rep, rule, key, label, outcomes, grids, oracle,
     None (input outside the property's domain: skipped)."""
     notes = inexact_notes([o for o in outcomes
                            if not (allow_cut and o.kind == 'cut')], allow)
+    recipe = getattr(outcomes, 'recipe', None)
+    if getattr(outcomes, 'overflow', None):
+        notes = [outcomes.overflow]
+    guided_all = False
+    n_guided = 0
     if notes:
-        rep.undecided(rule, key, '%s: interpretation inexact: %s' % (
-            label, notes), where)
-        return False
+        size = 1
+        for g_ in grids.values():
+            size *= max(1, len(list(g_)))
+        if recipe is None or size > GUIDED_LIMIT:
+            rep.undecided(rule, key, '%s: interpretation inexact: %s' % (
+                label, notes), where)
+            return False
+        # the symbolic table is not exact: every input is followed singly
+        guided_all = True
     shared = memo_shared(outcomes)
     if shared:
         rep.check(rule, key + ':memoised', False,
@@ -111,16 +178,25 @@ def grid_compare(rep, rule, key, label, outcomes, grids, oracle,
         if want is None:
             continue
         n += 1
-        try:
-            o = outcome_at(outcomes, val, hooks)
-        except CannotEval as e:
-            rep.undecided(rule, key, '%s: %s' % (label, e), where)
-            return False
-        try:
-            got = outcome_value(o, val, hooks)
-        except CannotEval as e:
-            rep.undecided(rule, key, '%s: %s' % (label, e), where)
-            return False
+        got = None
+        if not guided_all:
+            try:
+                o = outcome_at(outcomes, val, hooks)
+                got = outcome_value(o, val, hooks)
+            except CannotEval as e:
+                if recipe is None or n_guided >= GUIDED_LIMIT:
+                    rep.undecided(rule, key, '%s: %s' % (label, e), where)
+                    return False
+                first_error = e
+        if got is None:
+            n_guided += 1
+            try:
+                got = guided_outcome(recipe, val, hooks)
+            except CannotEval as e:
+                rep.undecided(rule, key, '%s: %s%s' % (
+                    label, 'interpretation inexact: %s; ' % notes
+                    if guided_all else '', e), where)
+                return False
         sigs.add(_sig(got))
         if not same_outcome(got, want, value_eq):
             if bad is None:
@@ -132,7 +208,10 @@ def grid_compare(rep, rule, key, label, outcomes, grids, oracle,
     rep.evaluations += max(n - len(sigs), 0)
     if bad is None:
         rep.check(rule, key, True, '%s: extracted table agrees with the '
-                  'oracle on %d valuations' % (label, n), where, case=label)
+                  'oracle on %d valuations%s' % (
+                      label, n, '' if not n_guided else
+                      ' (%d of them followed singly through the code)' %
+                      n_guided), where, case=label)
         return True
     rep.check(rule, key, False,
               '%s: for input %s the code yields %s but the property '
